@@ -1,2 +1,281 @@
-(* CodingKnotGenProofs.v -- ties the knot for the regenerated connect_coding_graph (to be filled in). *)
-From DSW Require Import MiniPyH.
+(* CodingKnotGenProofs.v -- ties the knot for connect_coding_graph REGENERATED from the current source (CodingGen.coding_module =
+   connect_coding_graph in front of MiniPyH copies of obtain_vertices, obtain_latters, obtain_formers; run by MiniPyH.call_in)
+   and restates C03 (and the graph half of C04) for the source text.
+   Compiled on every run of the checks against the freshly generated CodingGen.v (harness/regen.py, unit "coding"). *)
+From Coq Require Import Lia ZifyBool.
+From DSW Require Import MiniPyH Graph Kmer Convert Spec GraphSpec MiniPyHLemmas KmerProofs GraphProofs GenerateProofs GeneratedProofs.
+From DSWGen Require Import CodingGen CodingRepr CodingKmerGenProofs CodingVerticesGenProofs CodingGraphGenProofs.
+Open Scope Z_scope.
+Open Scope string_scope.
+Ltac Zify.zify_post_hook ::= Z.to_euclidean_division_equations.
+Local Open Scope Z_scope.
+Local Open Scope list_scope.
+Notation lookup := MiniPyH.lookup.
+
+(* running a function of the regenerated module *)
+Definition py4 (fuel : nat) (f : string) (args : list val) : res val := call_in coding_module fuel f args.
+
+(* STATUS: every target statement of the file is proved below with Qed, exactly as it was stated in the former TARGET STATEMENTS
+   block (nothing is left in a comment):
+     Part A  coding_callees, py4_connect_coding_graph_ok, py4_connect_coding_graph_raise
+             (py4_connect_coding_graph_raise : forall fuel k mask t verbose e, <the hypotheses of _ok> ->
+              Graph.connect_coding_graph k mask t = Raise e -> <fuel bound> -> py4 .. = Exn e);
+     Part B  C03_source, C04_no_dead_end_source (with the model equation, as stated), and the two forms WITHOUT the model equation:
+             C04_no_dead_end_source_t1  (threshold 1: the returned pair VTuple [varr V; varr2 acc] determines V and acc) and
+             C04_no_dead_end_source_any (every threshold: the vertices are read off the returned accessor, vin k (live_set acc)).
+   Why not the stated C04 clause without the model equation for every threshold: for t >= 2 the first component of the returned
+   pair is a vertex MASK (coding_result), which does not determine a list V -- when the first trimming round changes nothing it
+   is the argument itself and coding_result k mask t V acc does not depend on V at all, so "In v V -> .." would be false for an
+   arbitrary V (e.g. V = [99]).  run_determines is the bridge: a run that returns coding_result k mask t V acc forces
+   Graph.connect_coding_graph k mask t = Ok (V', acc) for some V' (and V' = V when t = 1).
+   The no-dead-end fact of the model (coding_graph_no_dead_end of Proofs/CorollaryProofs.v, what Properties/C03.v / C04.v cite) is
+   re-derived here as no_dead_end_model from generated_wf / gp_core (GeneratedProofs.v) and induced_on_closed_live
+   (GenerateProofs.v), so that the file needs nothing outside the dependencies listed for the unit in harness/regen.py.
+   coding_module = [connect_coding_graph; obtain_vertices; obtain_latters; obtain_formers]; call_in resolves a name and runs it
+   with the REST of the list as callees (mod_after "<name>"). *)
+
+(* ==== Part A: the knot ============================================================================================== *)
+(* the callees of a function of the module: what follows it in the list *)
+Fixpoint mod_after (f : string) (m : module) : module :=
+  match m with
+  | [] => []
+  | (g, _) :: rest => if String.eqb f g then rest else mod_after f rest
+  end.
+
+Ltac knot := unfold py4, coding_module; cbn [call_in mod_after String.eqb Ascii.eqb Bool.eqb]; reflexivity.
+
+Definition coding_tail : module :=
+  [("obtain_vertices", obtain_vertices_def); ("obtain_latters", obtain_latters_def); ("obtain_formers", obtain_formers_def)].
+
+Lemma mod_after_connect : mod_after "connect_coding_graph" coding_module = coding_tail.
+Proof. reflexivity. Qed.
+
+Lemma py4_connect_coding_graph_unfold fuel args :
+  py4 fuel "connect_coding_graph" args = run_fun (call_in coding_tail fuel) fuel connect_coding_graph_def args.
+Proof. unfold coding_tail. knot. Qed.
+
+Lemma tail_obtain_vertices_unfold fuel args :
+  call_in coding_tail fuel "obtain_vertices" args
+  = run_fun (call_in (mod_after "obtain_vertices" coding_tail) fuel) fuel obtain_vertices_def args.
+Proof. unfold coding_tail. cbn [call_in mod_after String.eqb Ascii.eqb Bool.eqb]. reflexivity. Qed.
+Lemma tail_obtain_latters_unfold fuel args :
+  call_in coding_tail fuel "obtain_latters" args
+  = run_fun (call_in (mod_after "obtain_latters" coding_tail) fuel) fuel obtain_latters_def args.
+Proof. unfold coding_tail. cbn [call_in mod_after String.eqb Ascii.eqb Bool.eqb]. reflexivity. Qed.
+Lemma tail_obtain_formers_unfold fuel args :
+  call_in coding_tail fuel "obtain_formers" args
+  = run_fun (call_in (mod_after "obtain_formers" coding_tail) fuel) fuel obtain_formers_def args.
+Proof. unfold coding_tail. cbn [call_in mod_after String.eqb Ascii.eqb Bool.eqb]. reflexivity. Qed.
+
+Theorem coding_callees : forall fuel k, coding_callees_ok (call_in [("obtain_vertices", obtain_vertices_def);
+     ("obtain_latters", obtain_latters_def); ("obtain_formers", obtain_formers_def)] fuel) k.
+Proof.
+  intros fuel k. fold coding_tail. unfold coding_callees_ok. split; [|split].
+  - intro current. rewrite tail_obtain_latters_unfold. apply obtain_latters_gen.
+  - intros current Hk. rewrite tail_obtain_formers_unfold. apply obtain_formers_gen. exact Hk.
+  - intro acc. rewrite tail_obtain_vertices_unfold. apply obtain_vertices_gen_any.
+Qed.
+
+Theorem py4_connect_coding_graph_ok : forall fuel k mask t verbose V acc,
+  (1 <= k)%nat -> Z.of_nat k < 400 -> length mask = Z.to_nat (pow4 k) -> Forall (fun x => 0 <= x <= 1) mask -> 1 <= t ->
+  Graph.connect_coding_graph k mask t = Ok (V, acc) -> (4 * length mask + 8 <= fuel)%nat ->
+  py4 fuel "connect_coding_graph" [VInt (Z.of_nat k); v_mask_int mask; VInt t; VBool verbose] = Ret (coding_result k mask t V acc).
+Proof.
+  intros fuel k mask t verbose V acc Hk1 Hk HL H01 Ht HM Hf. rewrite py4_connect_coding_graph_unfold.
+  apply connect_coding_graph_gen_ok; try assumption. apply coding_callees.
+Qed.
+
+Theorem py4_connect_coding_graph_raise : forall fuel k mask t verbose e,
+  (1 <= k)%nat -> Z.of_nat k < 400 -> length mask = Z.to_nat (pow4 k) -> Forall (fun x => 0 <= x <= 1) mask -> 1 <= t ->
+  Graph.connect_coding_graph k mask t = Raise e -> (4 * length mask + 8 <= fuel)%nat ->
+  py4 fuel "connect_coding_graph" [VInt (Z.of_nat k); v_mask_int mask; VInt t; VBool verbose] = Exn e.
+Proof.
+  intros fuel k mask t verbose e Hk1 Hk HL H01 Ht HM Hf. rewrite py4_connect_coding_graph_unfold.
+  apply connect_coding_graph_gen_raise; try assumption. apply coding_callees.
+Qed.
+
+(* ==== Part B: C03 / C04 for the source text ========================================================================= *)
+Lemma bit_01 mask : Forall bit mask -> Forall (fun x => 0 <= x <= 1) mask.
+Proof. intro H. eapply Forall_impl; [|exact H]. intros x [-> | ->]; lia. Qed.
+
+(* the model theorems for every threshold at once *)
+Lemma coding_graph_all : forall k t mask, (1 <= k)%nat -> length mask = Z.to_nat (pow4 k) -> Forall bit mask -> 1 <= t ->
+  match Graph.connect_coding_graph k mask t with
+  | Ok (V, acc) => largest_closed k t (maskb mask) (live_set acc)
+                   /\ acc = induced_on k (live_set acc) /\ legal k acc
+                   /\ (forall v, In v V <-> vin k (live_set acc) v)
+                   /\ (exists v, vin k (live_set acc) v)
+  | Raise ValueError => forall Y, closed k t Y -> vsub k Y (maskb mask) -> vempty k Y
+  | _ => False
+  end.
+Proof.
+  intros k t mask Hk HL Hb Ht. destruct (Z.eq_dec t 1) as [E|N].
+  - subst t. apply coding_graph_t1; assumption.
+  - apply coding_graph_t2; try assumption. lia.
+Qed.
+
+Theorem C03_source : forall fuel k t mask verbose, (1 <= k)%nat -> Z.of_nat k < 400 -> length mask = Z.to_nat (pow4 k) ->
+  Forall bit mask -> 1 <= t -> (4 * length mask + 8 <= fuel)%nat ->
+  (exists V acc, py4 fuel "connect_coding_graph" [VInt (Z.of_nat k); v_mask_int mask; VInt t; VBool verbose]
+                   = Ret (coding_result k mask t V acc)
+       /\ largest_closed k t (maskb mask) (live_set acc) /\ acc = induced_on k (live_set acc) /\ legal k acc
+       /\ (forall v, In v V <-> vin k (live_set acc) v) /\ (exists v, vin k (live_set acc) v))
+  \/ (py4 fuel "connect_coding_graph" [VInt (Z.of_nat k); v_mask_int mask; VInt t; VBool verbose] = Exn ValueError
+       /\ forall Y, closed k t Y -> vsub k Y (maskb mask) -> vempty k Y).
+Proof.
+  intros fuel k t mask verbose Hk1 Hk HL Hb Ht Hf.
+  pose proof (coding_graph_all k t mask Hk1 HL Hb Ht) as HM.
+  destruct (Graph.connect_coding_graph k mask t) as [[V acc]|e|] eqn:EM; [| |contradiction].
+  - left. exists V, acc. split; [|exact HM].
+    apply py4_connect_coding_graph_ok; try assumption. apply bit_01; exact Hb.
+  - right. destruct e; try contradiction. split; [|exact HM].
+    apply py4_connect_coding_graph_raise; try assumption. apply bit_01; exact Hb.
+Qed.
+
+
+(* no dead end (coding_graph_no_dead_end of Proofs/CorollaryProofs.v, re-derived here from GeneratedProofs / GenerateProofs) *)
+Lemma no_dead_end_model : forall k t mask V acc, (1 <= k)%nat -> 1 <= t ->
+  length mask = Z.to_nat (pow4 k) -> Forall bit mask -> Graph.connect_coding_graph k mask t = Ok (V, acc) ->
+  forall v, In v V ->
+    (exists j, 0 <= j < 4 /\ 0 <= entry acc v j) /\
+    (forall j, 0 <= j < 4 -> 0 <= entry acc v j -> In (entry acc v j) V) /\
+    (exists w, reach acc v w /\ branching acc w).
+Proof.
+  intros k t mask V acc Hk Ht Hl Hb Hc v Hin.
+  destruct (generated_wf k t mask V acc v Hk Hl Hb Ht Hc Hin) as [_ [_ [_ [Hwf _]]]].
+  destruct (gp_core k t mask V acc Hk Hl Hb Ht Hc) as [[[Hcd _] _] [Hacc [_ HV]]].
+  destruct (Hwf v (reach_refl acc v)) as [_ [Hlive Hbr]].
+  split; [exact Hlive|]. split; [|exact Hbr].
+  intros j Hj He. apply HV.
+  assert (Hv : vin k (live_set acc) v) by (apply HV; exact Hin).
+  remember (live_set acc) as X eqn:EX.
+  destruct (induced_on_closed_live k t X v Hk Ht Hcd Hv) as [_ [_ Harc]].
+  rewrite Hacc in He |- *. apply Harc; assumption.
+Qed.
+
+Theorem C04_no_dead_end_source : forall fuel k t mask verbose V acc, (1 <= k)%nat -> Z.of_nat k < 400 ->
+  length mask = Z.to_nat (pow4 k) -> Forall bit mask -> 1 <= t -> (4 * length mask + 8 <= fuel)%nat ->
+  py4 fuel "connect_coding_graph" [VInt (Z.of_nat k); v_mask_int mask; VInt t; VBool verbose] = Ret (coding_result k mask t V acc) ->
+  Graph.connect_coding_graph k mask t = Ok (V, acc) ->
+  forall v, In v V ->
+    (exists j, 0 <= j < 4 /\ 0 <= entry acc v j) /\
+    (forall j, 0 <= j < 4 -> 0 <= entry acc v j -> In (entry acc v j) V) /\
+    (exists w, reach acc v w /\ branching acc w).
+Proof.
+  intros fuel k t mask verbose V acc Hk1 Hk HL Hb Ht Hf _ HM. exact (no_dead_end_model k t mask V acc Hk1 Ht HL Hb HM).
+Qed.
+
+(* ---- the same WITHOUT the model equation: the returned value determines the accessor (every threshold) and, for threshold 1,
+        the vertex list ---- *)
+Lemma map_VInt_inj : forall l l' : list Z, map VInt l = map VInt l' -> l = l'.
+Proof.
+  induction l as [|x xs IH]; intros [|y ys] H; cbn [map] in H; try discriminate; [reflexivity|].
+  injection H as Hx Hr. subst y. f_equal. apply IH; exact Hr.
+Qed.
+Lemma varr_inj : forall l l', varr l = varr l' -> l = l'.
+Proof. unfold varr. intros l l' H. injection H as H. apply map_VInt_inj; exact H. Qed.
+Lemma map_varr_inj : forall a a', map varr a = map varr a' -> a = a'.
+Proof.
+  induction a as [|x xs IH]; intros [|y ys] H; cbn [map] in H; try discriminate; [reflexivity|].
+  injection H as Hx Hr. apply map_VInt_inj in Hx. subst y. f_equal. apply IH; exact Hr.
+Qed.
+
+(* what a run that returns tells about the model *)
+Lemma run_determines : forall fuel k t mask verbose V acc, (1 <= k)%nat -> Z.of_nat k < 400 ->
+  length mask = Z.to_nat (pow4 k) -> Forall bit mask -> 1 <= t -> (4 * length mask + 8 <= fuel)%nat ->
+  py4 fuel "connect_coding_graph" [VInt (Z.of_nat k); v_mask_int mask; VInt t; VBool verbose] = Ret (coding_result k mask t V acc) ->
+  exists V', Graph.connect_coding_graph k mask t = Ok (V', acc) /\ (t = 1 -> V' = V).
+Proof.
+  intros fuel k t mask verbose V acc Hk1 Hk HL Hb Ht Hf Hrun.
+  pose proof (coding_graph_all k t mask Hk1 HL Hb Ht) as HM.
+  destruct (Graph.connect_coding_graph k mask t) as [[V' acc']|e|] eqn:EM; [| |contradiction].
+  - pose proof (py4_connect_coding_graph_ok fuel k mask t verbose V' acc' Hk1 Hk HL (bit_01 mask Hb) Ht EM Hf) as Hrun'.
+    rewrite Hrun in Hrun'. injection Hrun' as H1 H2. apply map_varr_inj in H2. subst acc'.
+    exists V'. split; [reflexivity|]. intro E. subst t. change (1 =? 1) with true in H1. cbv iota in H1.
+    symmetry. apply varr_inj; exact H1.
+  - pose proof (py4_connect_coding_graph_raise fuel k mask t verbose e Hk1 Hk HL (bit_01 mask Hb) Ht EM Hf) as Hrun'.
+    rewrite Hrun in Hrun'. discriminate.
+Qed.
+
+(* threshold 1: the statement of C04_no_dead_end_source without the model equation *)
+Theorem C04_no_dead_end_source_t1 : forall fuel k mask verbose V acc, (1 <= k)%nat -> Z.of_nat k < 400 ->
+  length mask = Z.to_nat (pow4 k) -> Forall bit mask -> (4 * length mask + 8 <= fuel)%nat ->
+  py4 fuel "connect_coding_graph" [VInt (Z.of_nat k); v_mask_int mask; VInt 1; VBool verbose] = Ret (VTuple [varr V; varr2 acc]) ->
+  forall v, In v V ->
+    (exists j, 0 <= j < 4 /\ 0 <= entry acc v j) /\
+    (forall j, 0 <= j < 4 -> 0 <= entry acc v j -> In (entry acc v j) V) /\
+    (exists w, reach acc v w /\ branching acc w).
+Proof.
+  intros fuel k mask verbose V acc Hk1 Hk HL Hb Hf Hrun.
+  destruct (run_determines fuel k 1 mask verbose V acc Hk1 Hk HL Hb ltac:(lia) Hf Hrun) as (V' & EM & HV).
+  rewrite (HV eq_refl) in EM. exact (no_dead_end_model k 1 mask V acc Hk1 ltac:(lia) HL Hb EM).
+Qed.
+
+(* every threshold: the vertices are read off the returned accessor (its listed rows) instead of the first component, which for
+   thresholds >= 2 is a vertex mask -- possibly the argument itself -- and does not determine a list V *)
+Theorem C04_no_dead_end_source_any : forall fuel k t mask verbose V acc, (1 <= k)%nat -> Z.of_nat k < 400 ->
+  length mask = Z.to_nat (pow4 k) -> Forall bit mask -> 1 <= t -> (4 * length mask + 8 <= fuel)%nat ->
+  py4 fuel "connect_coding_graph" [VInt (Z.of_nat k); v_mask_int mask; VInt t; VBool verbose] = Ret (coding_result k mask t V acc) ->
+  forall v, vin k (live_set acc) v ->
+    (exists j, 0 <= j < 4 /\ 0 <= entry acc v j) /\
+    (forall j, 0 <= j < 4 -> 0 <= entry acc v j -> vin k (live_set acc) (entry acc v j)) /\
+    (exists w, reach acc v w /\ branching acc w).
+Proof.
+  intros fuel k t mask verbose V acc Hk1 Hk HL Hb Ht Hf Hrun v Hv.
+  destruct (run_determines fuel k t mask verbose V acc Hk1 Hk HL Hb Ht Hf Hrun) as (V' & EM & _).
+  destruct (gp_core k t mask V' acc Hk1 HL Hb Ht EM) as [_ [_ [_ HV]]].
+  destruct (no_dead_end_model k t mask V' acc Hk1 Ht HL Hb EM v (proj2 (HV v) Hv)) as (H1 & H2 & H3).
+  split; [exact H1|]. split; [|exact H3]. intros j Hj He. apply HV. apply H2; assumption.
+Qed.
+
+(* ---- non-vacuity: order-2 masks -- threshold 1 with a removed information-free cycle (TT of {AA, AC, CA, CC, TT}), threshold 2,
+        and the all-zero mask (ValueError) ---- *)
+Example coding_knot_nonvacuous :
+  py4 100 "connect_coding_graph" [VInt 2; v_mask_int [1;1;0;0;1;1;0;0;0;0;0;0;0;0;0;1]; VInt 1; VBool false]
+    = Ret (VTuple [varr [0;1;4;5];
+                   varr2 [[0;1;-1;-1];[4;5;-1;-1];[-1;-1;-1;-1];[-1;-1;-1;-1];[0;1;-1;-1];[4;5;-1;-1];[-1;-1;-1;-1];[-1;-1;-1;-1];
+                          [-1;-1;-1;-1];[-1;-1;-1;-1];[-1;-1;-1;-1];[-1;-1;-1;-1];[-1;-1;-1;-1];[-1;-1;-1;-1];[-1;-1;-1;-1];[-1;-1;-1;-1]]])
+  /\ Graph.connect_coding_graph 2 [1;1;0;0;1;1;0;0;0;0;0;0;0;0;0;1] 1
+     = Ok ([0;1;4;5], [[0;1;-1;-1];[4;5;-1;-1];[-1;-1;-1;-1];[-1;-1;-1;-1];[0;1;-1;-1];[4;5;-1;-1];[-1;-1;-1;-1];[-1;-1;-1;-1];
+                          [-1;-1;-1;-1];[-1;-1;-1;-1];[-1;-1;-1;-1];[-1;-1;-1;-1];[-1;-1;-1;-1];[-1;-1;-1;-1];[-1;-1;-1;-1];[-1;-1;-1;-1]])
+  (* threshold 2, the first trimming round removes TT: the first component is the boolean mask of the last round *)
+  /\ (match Graph.connect_coding_graph 2 [1;1;0;0;1;1;0;0;0;0;0;0;0;0;0;1] 2 with
+      | Ok (V, acc) => V = [0;1;4;5] /\
+          py4 100 "connect_coding_graph" [VInt 2; v_mask_int [1;1;0;0;1;1;0;0;0;0;0;0;0;0;0;1]; VInt 2; VBool true]
+          = Ret (coding_result 2 [1;1;0;0;1;1;0;0;0;0;0;0;0;0;0;1] 2 V acc)
+          /\ coding_result 2 [1;1;0;0;1;1;0;0;0;0;0;0;0;0;0;1] 2 V acc
+             = VTuple [VArr (map VBool [true;true;false;false;true;true;false;false;false;false;false;false;false;false;false;false]);
+                       varr2 acc]
+      | _ => False
+      end)
+  (* threshold 2, nothing to trim: the first component is the argument itself (an integer array) *)
+  /\ (match Graph.connect_coding_graph 2 [0;1;1;0;1;0;0;1;1;0;0;1;0;1;1;0] 2 with
+      | Ok (V, acc) => V = [1;2;4;7;8;11;13;14] /\
+          py4 100 "connect_coding_graph" [VInt 2; v_mask_int [0;1;1;0;1;0;0;1;1;0;0;1;0;1;1;0]; VInt 2; VBool true]
+          = Ret (coding_result 2 [0;1;1;0;1;0;0;1;1;0;0;1;0;1;1;0] 2 V acc)
+          /\ coding_result 2 [0;1;1;0;1;0;0;1;1;0;0;1;0;1;1;0] 2 V acc
+             = VTuple [v_mask_int [0;1;1;0;1;0;0;1;1;0;0;1;0;1;1;0]; varr2 acc]
+      | _ => False
+      end)
+  /\ py4 100 "connect_coding_graph" [VInt 2; v_mask_int (repeat 0 16); VInt 1; VBool false] = Exn ValueError
+  /\ Graph.connect_coding_graph 2 (repeat 0 16) 1 = Raise ValueError.
+Proof. vm_compute. repeat split; reflexivity. Qed.
+
+(* the counterexample to the stated C04 clause without the model equation at threshold 2: the run returns
+   coding_result k mask 2 [99] acc as well (the mask is returned unchanged, V is not looked at), and 99 is not a vertex *)
+Example coding_result_ignores_V :
+  let mask := [0;1;1;0;1;0;0;1;1;0;0;1;0;1;1;0] in
+  match Graph.connect_coding_graph 2 mask 2 with
+  | Ok (V, acc) => py4 100 "connect_coding_graph" [VInt 2; v_mask_int mask; VInt 2; VBool false] = Ret (coding_result 2 mask 2 [99] acc)
+                   /\ entry acc 99 0 = -1 /\ entry acc 99 1 = -1 /\ entry acc 99 2 = -1 /\ entry acc 99 3 = -1
+  | _ => False
+  end.
+Proof. vm_compute. repeat split; reflexivity. Qed.
+
+Print Assumptions coding_callees.
+Print Assumptions py4_connect_coding_graph_ok.
+Print Assumptions py4_connect_coding_graph_raise.
+Print Assumptions C03_source.
+Print Assumptions C04_no_dead_end_source.
+Print Assumptions C04_no_dead_end_source_t1.
+Print Assumptions C04_no_dead_end_source_any.
